@@ -501,6 +501,12 @@ def r10_blanked_copy_keeps_columns(ctx, rep):
                    f"one of the comment)", py.nloc(r))
 
 
+def r11_literal_rewrites_keep_length(ctx, rep):
+    """literal text is preserved verbatim also where it is prepared for display (shared with C18.R16)"""
+    from . import c18
+    c18.r16_literal_rewrites_keep_length(ctx, rep)
+
+
 RULES = [
     RuleSpec("C02.R6", r6_masking_cursor, "masking loops advance past the placeholder (shared with C20.R4)", floor=2),
     RuleSpec("C02.R1", r1_comment_recogniser, "comment recogniser == Fortran comment rule", floor=6),
@@ -512,4 +518,5 @@ RULES = [
     RuleSpec("C02.R7", r7_no_transform_after_restore, "no rewriting after literals are re-inserted (shared with C18.R2)", floor=2),
     RuleSpec("C02.R10", r10_blanked_copy_keeps_columns, "the blanked copy of a line inside an open literal keeps the line's columns", floor=1),
     RuleSpec("C02.R9", r9_sub_templates, "source text used as a regex replacement template has its backslashes doubled", floor=5),
+    RuleSpec("C02.R11", r11_literal_rewrites_keep_length, "substitutions on a restored literal keep its length (shared with C18.R16)", floor=1),
 ]
